@@ -12,9 +12,12 @@
 //	                                   an instruction with its operands per field (values from which no *ssa.Function can be reached through
 //	                                   ANY operand field are pruned; instructions with nothing left are dropped unless MakeInterface/TypeAssert);
 //	                                   M: method set of the operand's type (MakeInterface), J: method names of the interface converted/asserted to
+//	A <aid> <n> {<mid> <fid>}*         methods of the runtime types implementing an asserted interface; a TypeAssert to a non-empty
+//	                                   interface carries "MA <aid>" instead of "M ..."
 //	E
 //	R <sel> <n> <fid>*                 result of FindReachable; sel = nomain + 2*noinit
 //	C <sel> <n> <fid>*                 dataflow.CallGraphReachable on the pointer-analysis call graph (with -cg)
+//	D <sel> <n> <fid>*                 the same restricted to realizable edges (a closure is callable only once its parent is reached)
 //	Q <key> <count>                    statistics / cross-checks (operand fields by reflection vs instr.Operands())
 //	Z
 //
@@ -38,8 +41,10 @@ import (
 	"github.com/awslabs/ar-go-tools/analysis/dataflow"
 	"github.com/awslabs/ar-go-tools/analysis/reachability"
 	"github.com/awslabs/ar-go-tools/verifharness/hutil"
+	"golang.org/x/tools/go/callgraph"
 	"golang.org/x/tools/go/ssa"
 	"golang.org/x/tools/go/ssa/ssautil"
+	"golang.org/x/tools/go/types/typeutil"
 )
 
 var (
@@ -442,7 +447,9 @@ func dumpProgram(w, nw *bufio.Writer, dir string, prog *ssa.Program, lg *config.
 			os.Exit(2)
 		}
 		for sel := 0; sel < 4; sel++ {
-			emit("C", sel, dataflow.CallGraphReachable(cg, sel&1 != 0, sel&2 != 0))
+			raw := dataflow.CallGraphReachable(cg, sel&1 != 0, sel&2 != 0)
+			emit("C", sel, raw)
+			emit("D", sel, realizableCG(cg, sel&1 != 0, sel&2 != 0))
 		}
 	}
 	stats["nil_reported"] = nilReported
@@ -619,6 +626,10 @@ func dumpFunction(w *strings.Builder, f *ssa.Function, fidOf func(*ssa.Function)
 					special = true
 				}
 				ms = " M 0"
+				if len(names) > 0 {
+					// methods of every runtime type (non-interface) implementing the asserted interface: table A, interned per interface
+					ms = fmt.Sprintf(" MA %d", assertTable(w, prog, x.AssertedType, fidOf, meths, stats))
+				}
 				js = fmt.Sprintf(" J %d", len(names))
 				for _, n := range names {
 					js += fmt.Sprintf(" %d", meths.id(n))
@@ -639,6 +650,101 @@ func dumpFunction(w *strings.Builder, f *ssa.Function, fidOf func(*ssa.Function)
 		stats["instructions_kept"]++
 		fmt.Fprintf(w, "I %d %d %s%s%s\n", types_.id(typeName(ir.ins)), invoke, s, ms, js)
 	}
+}
+
+// realizableCG is call-graph reachability restricted to edges that can occur at run time as far as closures are concerned:
+// the pointer analysis generates constraints for every function of the program, so a helper such as os.ignoringEINTR(fn)
+// gets call edges to every closure passed to it anywhere, including closures created by functions that are not reachable
+// themselves (os.chmod$1 when os.chmod is never called).  A closure value exists only if its enclosing function ran, so a
+// dynamic edge to an anonymous function is followed only once its parent is reached.
+func realizableCG(cg *callgraph.Graph, excludeMain, excludeInit bool) map[*ssa.Function]bool {
+	reached := map[*ssa.Function]bool{}
+	pending := map[*ssa.Function][]*callgraph.Node{}
+	var work []*callgraph.Node
+	reach := func(n *callgraph.Node) {
+		if n.Func == nil || reached[n.Func] {
+			return
+		}
+		reached[n.Func] = true
+		work = append(work, n)
+	}
+	for f, n := range cg.Nodes {
+		if n.ID != 0 && f != nil && f.Pkg != nil && f.Pkg.Pkg.Name() == "main" &&
+			((!excludeMain && f.Name() == "main") || (!excludeInit && f.Name() == "init")) {
+			reach(n)
+		}
+	}
+	for len(work) > 0 {
+		n := work[len(work)-1]
+		work = work[:len(work)-1]
+		for _, waiting := range pending[n.Func] {
+			reach(waiting)
+		}
+		delete(pending, n.Func)
+		for _, e := range n.Out {
+			callee := e.Callee
+			if callee.Func == nil {
+				continue
+			}
+			static := e.Site != nil && e.Site.Common().StaticCallee() == callee.Func
+			if p := callee.Func.Parent(); p != nil && !static && !reached[p] {
+				pending[p] = append(pending[p], callee)
+				continue
+			}
+			reach(callee)
+		}
+	}
+	return reached
+}
+
+// assertTable emits (once per asserted interface type of the program) the line
+//
+//	A <aid> <n> {<mid> <fid>}*
+//
+// listing the whole method set of every non-interface runtime type (ssa.Program.RuntimeTypes) that implements the
+// interface, and returns aid.  TypeAssert instructions refer to it with "MA <aid>".
+var (
+	assertIDs   typeutil.Map
+	assertProg  *ssa.Program
+	runtimeTyps []types.Type
+)
+
+func assertTable(w *strings.Builder, prog *ssa.Program, asserted types.Type, fidOf func(*ssa.Function) int, meths *interner,
+	stats map[string]int) int {
+	if assertProg != prog {
+		assertProg = prog
+		assertIDs = typeutil.Map{}
+		runtimeTyps = prog.RuntimeTypes()
+		sort.Slice(runtimeTyps, func(i, j int) bool { return runtimeTyps[i].String() < runtimeTyps[j].String() })
+	}
+	if id := assertIDs.At(asserted); id != nil {
+		return id.(int)
+	}
+	aid := assertIDs.Len() + 1
+	assertIDs.Set(asserted, aid)
+	iface := asserted.Underlying().(*types.Interface)
+	var parts []string
+	for _, t := range runtimeTyps {
+		if types.IsInterface(t) || !types.Implements(t, iface) {
+			continue
+		}
+		stats["assert_implementing_types"]++
+		mset := prog.MethodSets.MethodSet(t)
+		for i := 0; i < mset.Len(); i++ {
+			sel := mset.At(i)
+			mf := prog.MethodValue(sel)
+			if mf == nil {
+				continue
+			}
+			parts = append(parts, fmt.Sprintf("%d %d", meths.id(sel.Obj().Name()), fidOf(mf)))
+		}
+	}
+	fmt.Fprintf(w, "A %d %d", aid, len(parts))
+	if len(parts) > 0 {
+		w.WriteString(" " + strings.Join(parts, " "))
+	}
+	w.WriteString("\n")
+	return aid
 }
 
 // enterTag recognises the static call enter(<int constant>) used by generated programs to log function entry
